@@ -711,7 +711,13 @@ func (pc *pathCtx) assert(c *Term, label, site string, stack []string) {
 		return
 	}
 	pc.ensureModel()
-	if c.isFalse() || !pc.evalBool(c) {
+	if c.isFalse() {
+		// violated on the whole path: record it and go on, so that assertions further down the same
+		// path are still decided (a listed known finding must not hide an unlisted violation)
+		pc.recordFailure("assert", label, site, "", stack)
+		return
+	}
+	if !pc.evalBool(c) {
 		pc.recordFailure("assert", label, site, "", stack)
 		pc.addConstraint(c) // continue only where it holds
 		return
